@@ -31,6 +31,10 @@ def _build(rng, xs, ys, form):
         c = CurveFitting([0, 1, 2], [5, 7, 1])
         c.set(list(xs), list(ys))
         return c
+    if form == "ylonger":
+        return CurveFitting(list(xs), list(ys) + [123.25, -7.5])       # surplus ordinates belong to no pair
+    if form == "xlonger":
+        return CurveFitting(list(xs) + [55.5], list(ys))               # (documented: the extra abscissa is dropped)
     if form == "copy":
         return CurveFitting(CurveFitting(list(xs), list(ys)))
     if form == "copy_reset":
@@ -102,7 +106,7 @@ def gen_fit(seed, shard, n):
             rng.shuffle(idx)
         xs = [xs[i] for i in idx]
         ys = [ys[i] for i in idx]
-        form = rng.choice(["lists", "tuples", "flat", "set", "copy", "copy_reset"])
+        form = rng.choice(["lists", "tuples", "flat", "set", "copy", "copy_reset", "ylonger", "xlonger"])
         if form == "flat" and len(xs) < 2:
             form = "lists"
         try:
@@ -145,6 +149,35 @@ def gen_fit(seed, shard, n):
             except Exception as ex:
                 ev[key], ev[ock] = BAD, _oc(ex)
         yield ev
+        # a basis function that is tiny on these abscissae (exp x for x around -15, one of the listed basis functions): the
+        # fit is well posed; the column and its coefficient are handed to the specification in units of 2^-20 (exact)
+        if len(xs) >= 6 and rng.random() < 0.25:
+            ne = max(len(xs), rng.choice([6, 12, 21, 30]))
+            xe = [-18.0 + 5.0 * (i + rng.random()) / ne for i in range(ne)]
+            ye = [_q(2.0 * x + 3.0 + rng.uniform(-1, 1)) for x in xe]
+            fs_ = [lambda x: x, lambda x: 1.0]
+            pos = rng.randrange(3)
+            fs_.insert(pos, math.exp)
+            S = 2.0 ** 20
+            cols = [[fx((fs_[j](x)) * (S if j == pos else 1.0)) for x in xe] for j in range(3)]
+            ev = {"k": "gen", "xs": [fx(v) for v in xe], "ys": [fx(v) for v in ye], "form": "lists", "n": len(xe), "basis": "free", "nb": 3,
+                  "Bs": cols, "singular": 0, "r": fx(0), "ysc": fx(max(1.0, max(abs(v) for v in ye))), "xf": xe, "yf": ye,
+                  "ndist": len(set(xe)), "xmax": 18.0, "ydist": len(set(ye)), "ymax": max(abs(v) for v in ye), "xrel": 0.2, "yrel": 0.2}
+            # (for the known-findings predicate only: the unscaled Gram determinant and diagonal product, exactly)
+            from fractions import Fraction as F
+            cu = [[F(fs_[j](x)) for x in xe] for j in range(3)]
+            g = [[sum(a * b for a, b in zip(cu[i], cu[j])) for j in range(3)] for i in range(3)]
+            det = (g[0][0] * (g[1][1] * g[2][2] - g[1][2] ** 2) - g[0][1] * (g[0][1] * g[2][2] - g[1][2] * g[0][2])
+                   + g[0][2] * (g[0][1] * g[1][2] - g[1][1] * g[0][2]))
+            ev["basis"], ev["dabs"], ev["mrt"] = "free", float(abs(det)), float(g[0][0] * g[1][1] * g[2][2])
+            ev["tiny"] = 1
+            try:
+                cc = list(_build(rng, xe, ye, "lists").general_fitting(*fs_))
+                cc[pos] = cc[pos] / S
+                ev["c"], ev["oc"] = _pad3(cc), "ok"
+            except Exception as ex:
+                ev["c"], ev["oc"] = _pad3([]), _oc(ex)
+            yield ev
         # general fitting
         which = rng.choice(["x2x1", "x1", "free", "free1", "perm", "perm"])
         f_sq, f_id, f_one = (lambda x: x * x), (lambda x: x), (lambda x: 1.0)
